@@ -220,6 +220,31 @@ def make_gq_op(op, noise=None):
     raise ValueError(k)
 
 
+def noise_annotation(op, rng):
+    """noise objects of non-zero strength attached to an operation (they mean nothing while noise simulation is off, which is
+    the compilers' default); the specification remembers the shape: one object for a whole wrapper makes unwrap() emit a
+    carrier Identity"""
+    import graphiq.noise.noise_models as nm
+
+    def one():
+        o = [nm.DepolarizingNoise(0.3), nm.PauliError("X"), nm.PauliError("Y"), nm.PhotonLoss(0.2)][int(rng.integers(4))]
+        after = bool(rng.integers(2))
+        o.noise_parameters["After gate"] = after
+        return o, after
+    if op.kind == "W" and rng.random() < 0.6:
+        o, after = one()
+        op.noise = ("single", ("annotation", type(o).__name__, after))
+        return o
+    if op.kind == "W":
+        op.noise = [("annotation", None, True)] * len(op.gates)
+        return [one()[0] for _ in op.gates]
+    if op.kind in ("CNOT", "CZ"):
+        op.noise = [("annotation", None, True)] * 2
+        return [one()[0], one()[0]] if rng.random() < 0.6 else one()[0]
+    op.noise = ("annotation", None, True)
+    return one()[0]
+
+
 def wire_edges(circ, t, i):
     """edges of register wire (t,i) in order from input to output, found through the public dag"""
     key = f"{t}{i}"
@@ -279,7 +304,12 @@ UNITARY_ALPHABET = ONEQ + ["W", "W", "CNOT", "CNOT", "CZ"]
 def place(prog, circ, op, rng, p_insert=0.35):
     """put `op` into the circuit through add() or insert_at(), mirroring it in the specification.
     returns True if placed"""
-    op.obj = make_gq_op(op) if op.obj is None else op.obj
+    if op.obj is None:
+        noise = None
+        pa = getattr(prog, "annotate_noise", 0.0)
+        if pa and op.kind in ONEQ + ["W", "CNOT", "CZ"] and rng.random() < pa:
+            noise = noise_annotation(op, rng)
+        op.obj = make_gq_op(op, noise=noise)
     if rng.random() >= p_insert:
         circ.add(op.obj)
         prog.spec_add(op)
@@ -309,11 +339,12 @@ def place(prog, circ, op, rng, p_insert=0.35):
     return True
 
 
-def random_program(rng, n_e, n_p, n_c, length, alphabet=None, p_insert=0.35, adversarial=True, grow_registers=False):
+def random_program(rng, n_e, n_p, n_c, length, alphabet=None, p_insert=0.35, adversarial=True, grow_registers=False, annotate_noise=0.0):
     """build (Program, CircuitDAG) through the public API"""
     from graphiq.circuit.circuit_dag import CircuitDAG
     alphabet = alphabet or FULL_ALPHABET
     prog = Program(n_e, n_p, n_c)
+    prog.annotate_noise = annotate_noise
     circ = CircuitDAG(n_emitter=n_e, n_photon=n_p, n_classical=n_c)
     for step in range(length):
         grow = grow_registers and prog.n_q < 6 and rng.random() < 0.06
